@@ -284,3 +284,15 @@ Fixpoint place_free (p : pos) (s : schema) : bool :=
   | SObj props _ => forallb (fun q => place_free PTop (snd (snd q))) props
   | _ => true
   end.
+
+(* ---- C15: the draft-6 spelling of a schema -------------------------------------------------- *)
+Fixpoint to_d6 (s : schema) : schema :=
+  match s with
+  | SInt c => SInt (to_draft6 c)
+  | SNullable s' => SNullable (to_d6 s')
+  | SArr s' lo hi => SArr (to_d6 s') lo hi
+  | SMap s' => SMap (to_d6 s')
+  | SAny alts => SAny (map to_d6 alts)
+  | SObj props closed => SObj (map (fun q => (fst q, (fst (snd q), to_d6 (snd (snd q))))) props) closed
+  | _ => s
+  end.
